@@ -277,6 +277,7 @@ def classify(cls, owner, fn, gprops):
     sc = InitScan(fn, names)
     if sc.super_calls != 1:
         raise Unsupported("%s.__init__: %d top-level super().__init__(**kwargs) calls" % (owner.__name__, sc.super_calls))
+    pinned = sorted({t for (t, value, guards) in sc.stores if not guards and isinstance(value, ast.Constant)})
     res = []
     for p, dflt in zip(params, defaults):
         arg = p.arg
@@ -284,12 +285,15 @@ def classify(cls, owner, fn, gprops):
         dsrc = ast.unparse(dflt) if dflt is not None else None
         # is the value possibly replaced before it is stored?  (allowed: defaulting when None / falsy)
         tainted = False
-        for (n, value, guards) in sc.reassign:
+        defaulted = None      # `if a is None: a = <default>` / `if not a: a = <default>` before the store:
+        for (n, value, guards) in sc.reassign:   # the CALLER's value is stored only when it is not None / truthy
             if n != arg:
                 continue
             g, other = guard_for(arg, guards)
             if g not in ("GIsNone", "GFalsy") or other:
                 tainted = True
+            elif defaulted != "GTruthy":
+                defaulted = "GNotNone" if g == "GIsNone" else "GTruthy"
         pos_stores, const_stores, neg_stores, other_stores = [], [], [], 0
         for (target, value, guards) in sc.stores:
             mentioned = arg in names_loaded(value)
@@ -306,6 +310,8 @@ def classify(cls, owner, fn, gprops):
                 # a store of something else under a guard on arg: the guard use is already counted in tests
                 continue
             if kind in ("CId", "CConv", "COrDefault") and g in POS_GUARDS:
+                if defaulted and (g == "GNone" or (g == "GNotNone" and defaulted == "GTruthy")):
+                    g = defaulted
                 pos_stores.append((target, g, kind, extra, other))
             elif kind in ("CId", "CConv", "COrDefault") and g in ("GFalsy", "GIsNone"):
                 # `if not a: self.p = a` stores the falsy value itself (Table.printable) -- a use, unless `a` was
@@ -349,7 +355,7 @@ def classify(cls, owner, fn, gprops):
             entry.update(kind="Unrecognised",
                          note=("reassigned before use; " if tainted else "") + "used in %d other expression(s), %d test(s)" % (nother, sc.tests[arg]))
         res.append(entry)
-    return res
+    return res, pinned
 
 
 # ------------------------------------------------------------------ 3. emit
@@ -407,16 +413,16 @@ def main():
                 owner = k
                 break
         if owner is Element:
-            args = []
+            args, pinned = [], []
             init_file = inspect.getsourcefile(Element)
         else:
             fn, init_file = find_init(owner)
-            args = classify(c, owner, fn, gp)
+            args, pinned = classify(c, owner, fn, gp)
         all_props = sorted(n for n in dir(c) if isinstance(inspect.getattr_static(c, n, None), property))
         info["classes"].append(dict(name=c.__name__, module=c.__module__, own_tag=own, init_owner=owner.__name__,
                                     init_file=str(Path(init_file).relative_to(REPO)) if str(init_file).startswith(str(REPO)) else init_file,
                                     generic_props={k: list(v) for k, v in gp.items()}, declared=declared,
-                                    properties=all_props, args=args,
+                                    properties=all_props, args=args, pinned=pinned,
                                     tags=[t for t, k in _class_registry.items() if k is c], loser=c not in registered))
         tag_lines.append("  (%s, %s)" % (q(c.__name__), q(own)))
         for pn in sorted(gp):
